@@ -1,25 +1,12 @@
 """Hand-written parts of MANIFEST.json."""
 HOOKS = dict(
     guard="coupe_verif",
-    enable="cargo feature `coupe_verif` of the coupe crate, switched on by /verif/harness/Cargo.toml through its path dependency (no hook is needed by the checks claimed so far)",
+    enable="cargo feature `coupe_verif` of the coupe crate, switched on by /verif/harness/Cargo.toml (coupe = { path = \"/repo\", features = [\"coupe_verif\"] }); /repo/ffi is built without it",
     baseline_off_cmd="cd /repo && cargo test --workspace --no-fail-fast --offline",
-    source_commits=[],
+    source_commits=["a3a7500"],
     add_only=True,
 )
 NOTES = ("Technique: machine-checked proof in Coq 8.16.1 about executable Gallina models, tied to /repo on every run by a translator "
          "(constants/tables) and a correspondence run (model evaluated by vm_compute inside coqc vs the implementation built from the "
          "working tree). See DESIGN.md. Known findings: known_findings.json.")
 NOT_APPLICABLE = {}
-CHECKS = {
-    "C13": dict(
-        text="Theorems C13_sound / C13_complete / C13_terminates / C13_no_panic proved for ALL non-negative weight vectors, tolerances and "
-             "initial arrays about a line-by-line Gallina model of ckk.rs (search, sorted insertion, back-tracking build, f64 tolerance "
-             "conversion); the literal that decides the property (the `separate` flag of each branch) is re-read from the source on "
-             "every run, the rest of the model is compared with the implementation on generated inputs, and a checker proved equivalent "
-             "to the property (incl. a subset-sum decision procedure for NotFound) judges every implementation output.",
-        design_ref="DESIGN.md §7 C13",
-        note="Trusted: Coq kernel; the model<->code tie is the translator (two literals) plus differential runs (1.5k/12k cases); "
-             "SpecFloat = hardware f64 multiply; i64 sums do not overflow (contract). No axioms.",
-        technique="Coq proof (induction on the search) + translator + model/implementation correspondence + certified checker",
-    ),
-}
